@@ -124,7 +124,7 @@ def run(tw, tier, seed, only=None):
     for _ in range(20 if tier == "quick" else 200):
         cases += 1
         check_history(rng, [relabel(rng, rng.choice(pool), 0) for _ in range(4)], fails)
-    return {"cases": cases, "nontrivial": nontriv, "failures": fails[:30], "samples": samples, "exhaustive": False, "evaluations": cases,
+    return {"cases": cases, "nontrivial": nontriv, "failures": fails, "samples": samples, "exhaustive": False, "evaluations": cases,
             "bound": "%d ordered pairs of labelled graphs <= 3 atoms (2 elements, 2 orders, hcount 0/1) incl. relabelled copies; wl filter on/off, "
                      "use_filter on/off, induced/monomorphism, query histories with 3 attribute selections" % cases,
             "rule": "a pair is non-trivial when the two graphs are isomorphic"}
